@@ -33,7 +33,8 @@ def P (c : Cfg) (x : Text) : Text :=
 
 /-- one level of the grammar, given the (non-empty) item renderings -/
 def level (c : Cfg) (items : List Text) : Text :=
-  condense (P c (if c.lonce then lead c ++ items.foldr (· ++ ·) [] else joinText (sep c) items))
+  condense (P c (if c.lonce then (if items.isEmpty then [] else lead c) ++ items.foldr (· ++ ·) []
+                 else joinText (sep c) items))
 
 mutual
 /-- what one element contributes to its parent `pc` (empty = nothing, no dangling operator) -/
